@@ -43,7 +43,7 @@ unsigned int irc_ntop(char *output, unsigned int out_size, const irc_inaddr *add
     if (irc_inaddr_is_ipv4(*addr)) {
         unsigned int ip4;
 
-        ip4 = (ntohs(addr->in6[6]) << 16) | ntohs(addr->in6[7]);
+        ip4 = ((unsigned int)ntohs(addr->in6[6]) << 16) | ntohs(addr->in6[7]);
         pos = snprintf(output, out_size, "%u.%u.%u.%u", (ip4 >> 24), (ip4 >> 16) & 255, (ip4 >> 8) & 255, ip4 & 255);
    } else {
         unsigned int part, max_start, max_zeros, curr_zeros, ii;
@@ -52,9 +52,11 @@ unsigned int irc_ntop(char *output, unsigned int out_size, const irc_inaddr *add
         for (max_start = max_zeros = curr_zeros = ii = 0; ii < 8; ++ii) {
             if (!addr->in6[ii])
                 curr_zeros++;
-            else if (curr_zeros > max_zeros) {
-                max_start = ii - curr_zeros;
-                max_zeros = curr_zeros;
+            else {
+                if (curr_zeros > max_zeros) {
+                    max_start = ii - curr_zeros;
+                    max_zeros = curr_zeros;
+                }
                 curr_zeros = 0;
             }
         }
@@ -62,6 +64,11 @@ unsigned int irc_ntop(char *output, unsigned int out_size, const irc_inaddr *add
             max_start = ii - curr_zeros;
             max_zeros = curr_zeros;
         }
+        /* A leading run is printed as "0::", which spells out its first
+         * group; a leading run of one group leaves nothing to elide.
+         */
+        if ((max_start == 0) && (max_zeros == 1))
+            max_zeros = 0;
 
         /* Print out address. */
 #define APPEND(CH) do { if (pos < out_size) output[pos] = (CH); pos++; } while (0)
